@@ -18,11 +18,26 @@ Proof.
   - inversion H; subst. right. split; [left; reflexivity|exact E].
 Qed.
 
+Definition is_SDigits (sh : shape) : bool := match sh with SDigits => true | _ => false end.
+Definition is_SName (sh : shape) : bool := match sh with SName => true | _ => false end.
+
 Lemma rule_integer sh : In (INTEGER, sh) lexer_rules -> sh = SDigits.
-Proof. unfold lexer_rules. cbn [In]. intuition; try discriminate; congruence. Qed.
+Proof.
+  intros H.
+  assert (Hall : forallb (fun r => negb (kind_eqb (fst r) INTEGER) || is_SDigits (snd r)) lexer_rules = true)
+    by (vm_compute; reflexivity).
+  rewrite forallb_forall in Hall. specialize (Hall _ H). cbn [fst snd] in Hall.
+  change (kind_eqb INTEGER INTEGER) with true in Hall. cbn [negb orb] in Hall. destruct sh; try discriminate; reflexivity.
+Qed.
 
 Lemma rule_name sh : In (NAME, sh) lexer_rules -> sh = SName.
-Proof. unfold lexer_rules. cbn [In]. intuition; try discriminate; congruence. Qed.
+Proof.
+  intros H.
+  assert (Hall : forallb (fun r => negb (kind_eqb (fst r) NAME) || is_SName (snd r)) lexer_rules = true)
+    by (vm_compute; reflexivity).
+  rewrite forallb_forall in Hall. specialize (Hall _ H). cbn [fst snd] in Hall.
+  change (kind_eqb NAME NAME) with true in Hall. cbn [negb orb] in Hall. destruct sh; try discriminate; reflexivity.
+Qed.
 
 Lemma span_firstn_all f : forall l, forallb f (firstn (span_len f l) l) = true.
 Proof.
